@@ -80,6 +80,44 @@ def clsdef(touch: bool, oc: bool, c1: int, v1: int, c2: int, v2: int) -> None:
 clsdef.ranges = lambda consts: dict(c1=(-2, 2), c2=(-2, 2), v1=(-2, 2), v2=(-2, 2))
 
 
+def dupreg(kwmode: bool, oc: bool, qd: bool, v1: int, v2: int, v3: int, un: int) -> None:
+    """The same callback registered twice with identical settings is two watchers: every qualifying assignment calls it
+    twice; after unwatch of one handle (the first or the second) once; after unwatch of both never."""
+    import param
+    from sx.api import check, untraced, pickbool, pick
+    kwmode, oc, qd = pickbool(kwmode), pickbool(oc), pickbool(qd)
+    with untraced():
+        class P(param.Parameterized):
+            a = param.Integer(default=0)
+        p = P()
+    calls = []
+
+    def cb(*events, **kw):
+        calls.append(1)
+    reg = p.param.watch_values if kwmode else p.param.watch
+    w1 = reg(cb, ['a'], onlychanged=oc, queued=qd)
+    w2 = reg(cb, ['a'], onlychanged=oc, queued=qd)
+    info = {'duplicate_registration': True, 'kw': kwmode, 'onlychanged': oc, 'queued': qd}
+    before = p.a
+    p.a = v1
+    fire = (not oc) or (True if before != v1 else False)
+    check('C03.once', len(calls) == (2 if fire else 0), dict(info, calls=len(calls), step=0))
+    un = pick(un, 0, 1)
+    p.param.unwatch(w1 if un == 0 else w2)
+    n = len(calls)
+    before = p.a
+    p.a = v2
+    fire = (not oc) or (True if before != v2 else False)
+    check('C03.once', len(calls) - n == (1 if fire else 0), dict(info, calls=len(calls) - n, step=1, unwatched=un))
+    p.param.unwatch(w2 if un == 0 else w1)
+    n = len(calls)
+    p.a = v3
+    check('C03.once', len(calls) == n, dict(info, calls=len(calls) - n, step=2))
+
+
+dupreg.ranges = lambda consts: dict(v1=(-1, 1), v2=(-1, 1), v3=(-1, 1), un=(0, 1))
+
+
 def _ranges(consts):
     r = {}
     q = consts['nw'] == 2
@@ -100,6 +138,7 @@ def shards(tier):
     k, nw = (2, 2) if q else (3, 3)
     for i in range(len(D.EQPOOL)):
         out.append(dict(name='eq_%d' % i, module='harness.c03', fn='eq', consts=dict(i=i), budget_s=60 if q else 300))
+    out.append(dict(name='dupreg', module='harness.c03', fn='dupreg', consts={}, budget_s=40 if q else 120))
     for touch in (False, True):
         out.append(dict(name='clsdef_%d' % touch, module='harness.c03', fn='clsdef', consts=dict(touch=touch), budget_s=40 if q else 120))
     for n1 in ((0, 2, 3) if q else range(5)):
